@@ -5,7 +5,9 @@ for d in ${@:-$(ls seeded)}; do
   P=${d%%-*}
   [ -f contracts/$P.py ] || { echo "$d: no check for $P yet"; continue; }
   git -C /repo apply /verif/seeded/$d/patch.diff || { echo "$d: patch does not apply"; continue; }
+  cp evidence/$P.json /tmp/ev_$P.json 2>/dev/null
   ./check $P > /tmp/rs_$d.out 2>&1; rc=$?
   git -C /repo checkout -- .
+  cp /tmp/ev_$P.json evidence/$P.json 2>/dev/null   # evidence files describe the unchanged tree only
   echo "$d: exit $rc; $(grep -c '^VIOLATION' /tmp/rs_$d.out) violation lines; $(grep -m1 '^VIOLATION' /tmp/rs_$d.out | cut -c1-120)"
 done
